@@ -2,7 +2,7 @@
 (* B1 generator for C11: page programs over the whole text-showing vocabulary, none of which the library's own writer
    emits beyond Tj.  Each case carries the ExtractionOptions combinations to run (bit 0 preserve_layout, 1
    sort_by_position, 2 detect_columns, 3 merge_hyphenated, 4 reconstruct_paragraphs, 5 include_artifacts, 6
-   reorder_columns): all 128 for every seventh case, a spread of 10 otherwise.                                 *)
+   reorder_columns, 7 with_reading_order): all 256 for every seventh case, a spread of 16 otherwise.                                 *)
 EXTENDS TextShow, Json
 
 CONSTANTS NCases, Stride
@@ -59,12 +59,13 @@ Composite(k) ==      \* the Type0 font, alone and mixed with the simple one, in 
 WithForms(k) ==      \* a form shown twice, a form that shows another form, text before and after
   <<BT, Font("F1", "12"), Op("Td", <<"50", "600">>), S1(Wd(k)), ET, Form("Fm1"), Qs, Op("cm", Mt(k)), Form("Fm1"), QQ, Form("Fm2"),
     BT, Font("F1", "12"), Op("Td", <<"50", "500">>), S1(Wd(k + 1)), ET>>
-FormsOf(k) == [Fm1 |-> <<BT, Font("F1", "11"), Op("Td", <<"20", "20">>), S1(Wd(k + 2)), Font("F2", "11"), S2(Cd(k)), ET>>,
-               Fm2 |-> <<Qs, Op("cm", <<"1", "0", "0", "1", "600", "60">>), Form("Fm1"), QQ, BT, Font("F1", "8"), Op("Td", <<"5", "5">>), S1(Wd(k + 3)), ET>>]
+\* inside a form, /F1 names the composite font and /F2 the simple one: the form's own resources, not the page's
+FormsOf(k) == [Fm1 |-> <<BT, Font("F2", "11"), Op("Td", <<"20", "20">>), S1(Wd(k + 2)), Font("F1", "11"), S2(Cd(k)), ET>>,
+               Fm2 |-> <<Qs, Op("cm", <<"1", "0", "0", "1", "600", "60">>), Form("Fm1"), QQ, BT, Font("F2", "8"), Op("Td", <<"5", "5">>), S1(Wd(k + 3)), ET>>]
 Marked(k) ==         \* artifacts (both forms), a plain span, ActualText replacing what is shown
   <<Art, BT, Font("F1", "9"), Op("Td", <<"300", "1900">>), S1(<<72, 69, 65, 68, 69, 82, 55>>), ET, EMC,
     BT, Font("F1", "12"), Op("Td", <<"72", "800">>), S1(Wd(k)), Span, S1(Wd(k + 1)), EMC, Op("Td", <<"0", "-15">>),
-    Actual(IF k % 2 = 0 THEN <<102, 105, 110, 101>> ELSE <<20013, 25991, 33>>), S1(<<64, 35>>), S1(<<36>>), EMC, Op("Td", <<"0", "-15">>), S1(Wd(k + 2)), ET,
+    Actual(IF k % 2 = 0 THEN <<102, 105, 110, 101>> ELSE <<20013, 25991, 33>>), S1(<<64, 35>>), Op("TL", <<"13">>), Quote(<<36>>), EMC, Op("Td", <<"0", "-15">>), S1(Wd(k + 2)), ET,
     ArtP, BT, Font("F1", "9"), Op("Td", <<"300", "30">>), S1(<<112, 97, 103, 101, 57, 57>>), ET, EMC>>
 Dense(k) ==          \* many short shows on one baseline, overlapping positions, tiny font: whatever the layout logic makes of it
   <<BT, Font("F1", "1"), Op("Td", <<"500", "500">>), S1(<<97>>), S1(<<98>>), Op("Td", <<"0", "0">>), S1(<<97>>), Op("Td", <<"-0.5", "0">>), S1(<<99>>), S1(Wd(k)),
@@ -73,8 +74,9 @@ Families == 8
 ProgOf(k) == LET f == k % Families  j == k \div Families IN
   CASE f = 0 -> Lines(j) [] f = 1 -> Kerned(j) [] f = 2 -> Quotes(j) [] f = 3 -> Matrices(j) [] f = 4 -> Composite(j) [] f = 5 -> WithForms(j) [] f = 6 -> Marked(j)
     [] OTHER -> Dense(j)
-AllOpts == [x \in 1..128 |-> x - 1]
-Spread(k) == <<0, 1, 3, 8, 16, 19, 32, 33, 64 + (k % 2) * 8, 127, 95, (k * 37) % 128>>
+\* bit 7: TextExtractor::with_reading_order
+AllOpts == [x \in 1..256 |-> x - 1]
+Spread(k) == <<0, 1, 3, 8, 16, 19, 32, 33, 64 + (k % 2) * 8, 127, 95, (k * 37) % 128, 128, 130, 160, 128 + ((k * 11) % 128)>>
 Case(k) == [prog |-> ProgOf(k), forms |-> IF k % Families = 5 THEN FormsOf(k \div Families) ELSE [Fm0 |-> <<>>], f2map |-> F2Map,
             opts |-> IF k % 7 = 0 THEN AllOpts ELSE Spread(k), flate |-> k % 2 = 1]
 
